@@ -190,3 +190,15 @@ def check_learn_state_premise(rep: Rep, repo: Repo, pre: str = "LEARN:") -> None
             rep.chk.ob(pre + o.rule, o.function, o.construct, o.ok, o.detail, o.file, o.line)
     if n < 3 and not failed:
         raise AnalysisError(f"learn-state premise: only {n} obligations found")
+
+
+def registry_accessor(repo: Repo):
+    """Inline predicate for plain (undecorated, non-metric) helper functions of the distance module, e.g. a
+    `get_distance_fn(name)` that returns `DISTANCES[name]`: a lookup through such an accessor is the lookup itself."""
+    from .algebra import MetricTranslator
+    try:
+        metric_fns = set(MetricTranslator(repo).registry().values())
+    except AnalysisError:
+        metric_fns = set()
+    return lambda f: f.cls is None and f.module == "opfython.math.distance" and not f.decorators \
+        and f.name not in metric_fns and not f.name.endswith("_distance")
